@@ -80,6 +80,8 @@ def small_case(k, rnd):
 def gen_case(seed, tier, idx):
     rnd = mkrnd(seed, "builder", idx)
     kind = ["valid", "mixed", "tight", "names", "wild", "small", "mixed"][idx % 7]
+    if idx % 21 == 3:
+        kind = "digits"     # Index(n) next to Cluster(str(n)): names that differ only in the type of a part
     if kind == "small":
         # thorough walks the enumeration in order (complete for <= 2 adds); quick samples it
         return small_case(idx // 7 if tier == "thorough" else rnd.randrange(SMALL_TOTAL + 800), rnd)
@@ -91,6 +93,8 @@ def gen_case(seed, tier, idx):
         aw = rnd.choice([4, 5, 6, 7, 8, 8])
     else:
         aw = rnd.randint(1, 8)
+    if kind == "digits":
+        aw = max(aw, 6)
     cfg = {"aw": aw, "dw": dw, "g": g}
     if rnd.random() < 0.03:
         k, v = rnd.choice([("aw", 0), ("aw", -1), ("aw", "x"), ("aw", None), ("dw", 0), ("dw", "x"), ("g", 0),
@@ -124,6 +128,8 @@ def gen_case(seed, tier, idx):
             return rnd.choice([{"o": None}, {"o": 5}, "", {"o": ["a"]}, {"o": 1.5}])
         if kind == "names":
             return rnd.choice(NAMES[:4])
+        if kind == "digits":
+            return rnd.choice(["x", "x", "y", "a", "1"])
         if isinstance(k, int) and r < (0.97 if kind == "valid" else 0.6):
             return f"r{k}"                                      # unique unless the register is added twice
         return rnd.choice(NAMES)
@@ -185,7 +191,7 @@ def gen_case(seed, tier, idx):
         else:
             k = {"o": rnd.choice(["obj", "none", "elem", "comp", "int"])}
         name = gen_name(k)
-        pexp = {"valid": 0.4, "mixed": 0.45, "tight": 0.4, "names": 0.1, "wild": 0.5}[kind]
+        pexp = {"valid": 0.4, "mixed": 0.45, "tight": 0.4, "names": 0.1, "wild": 0.5, "digits": 0.05}[kind]
         off = gen_off(k) if isinstance(k, int) and rnd.random() < pexp else None
         if isinstance(k, int) and isinstance(name, str) and name:
             note(k, off)
@@ -195,11 +201,16 @@ def gen_case(seed, tier, idx):
         ops = []
         for _ in range(n):
             r = rnd.random()
-            if r < 0.62 or depth >= 3:
+            if (r < 0.62 and not (kind == "digits" and r < 0.4 and depth < 3)) or depth >= 3:
                 ops.append(gen_add(depth))
             elif r < 0.92:
                 inner = gen_ops(depth + 1, rnd.choice([0, 1, 1, 2, 2, 3]))
-                if rnd.random() < 0.55:
+                if kind == "digits":
+                    if rnd.random() < 0.6:
+                        ops.append(["cluster", rnd.choice(["1", "1", "2", "x", "x"]), inner])
+                    else:
+                        ops.append(["index", rnd.choice([1, 1, 2]), inner])
+                elif rnd.random() < 0.55:
                     nm = rnd.choice(NAMES[:5]) if rnd.random() < 0.94 or kind == "valid" else \
                         rnd.choice(["", {"o": None}, {"o": 3}])
                     ops.append(["cluster", nm, inner])
@@ -217,7 +228,23 @@ def gen_case(seed, tier, idx):
         return [o for o in ops if o is not None]
 
     nops = max(nreg + rnd.choice([0, 0, 1, 2]), rnd.choice([0, 1, 2]))
-    ops = gen_ops(0, nops)
+    if kind == "digits" and nreg >= 3 and rnd.random() < 0.6:
+        # a register and a cluster of the same name under Index(n), with names under Cluster(str(n)) (or the
+        # other way round) in between: the two scopes are unrelated, the first pair collides
+        n = rnd.choice([1, 2, 7])
+        b = rnd.choice(["x", "a", "r"])
+        sc = (lambda inner: ["index", n, inner]) if rnd.random() < 0.5 else (lambda inner: ["cluster", str(n), inner])
+        other = (lambda inner: ["cluster", str(n), inner]) if sc(0)[0] == "index" else (lambda inner: ["index", n, inner])
+        trio = [sc([["add", b, pending.pop(0), None]]),
+                other([["cluster", b, [["add", rnd.choice(["a", "m", "y"]), pending.pop(0), None]]]]),
+                sc([["cluster", b, [["add", rnd.choice(["b", "n", "z", "a"]), pending.pop(0), None]]]])]
+        if rnd.random() < 0.3:
+            trio[0], trio[2] = trio[2], trio[0]
+        if rnd.random() < 0.2:
+            trio[1], trio[2] = trio[2], trio[1]
+        ops = trio + gen_ops(0, max(0, nops - 3))
+    else:
+        ops = gen_ops(0, nops)
     while pending and rnd.random() < 0.85:
         ops.append(gen_add(0))
     ops = [o for o in ops if o is not None]
